@@ -88,10 +88,60 @@ pub struct ConnD2 {
     pub snap: Vec<u64>,
     /// frames in delivery order (after network perturbation), with virtual delay before each
     pub frames: Vec<(u64, FrameD2, Option<String>)>,
+    /// this many leading frames arrived while the subscription was still being validated: they go
+    /// through `process_buffered_events` before the stream starts (see `effective_buffered`)
+    #[serde(default)]
+    pub n_buffered: usize,
+}
+
+/// How many of the leading frames are really treated as handshake-buffered: stale depth events
+/// and harmless junk, optionally closed by one event that breaks the chain. A buffered event that
+/// *continues* the chain is never generated: `MarketStream::init` queues buffered outputs ahead of
+/// the snapshot event (DESIGN.md section 7, noted but outside the claimed set).
+fn effective_buffered(conn: &ConnD2, insts: &[InstD2], futures: bool) -> (usize, bool) {
+    let mut n = 0;
+    for (_, f, _) in conn.frames.iter().take(conn.n_buffered) {
+        match f {
+            FrameD2::Malformed | FrameD2::UnknownSymbol | FrameD2::Ping | FrameD2::Pong => n += 1,
+            FrameD2::Ev { inst, k } => match classify(futures, conn.snap[*inst], true, ev_range(&insts[*inst], *k)) {
+                Class::Old => n += 1,
+                Class::Break => return (n + 1, true),
+                Class::Chains => return (n, false),
+            },
+            _ => return (n, false),
+        }
+    }
+    (n, false)
+}
+
+fn frame_msg(f: &FrameD2, insts: &[InstD2], futures: bool) -> Result<WsMessage, WsError> {
+    match f {
+        FrameD2::Ev { inst, k } => match insts.get(*inst) {
+            Some(i) if *k < i.cuts.len() => Ok(WsMessage::text(ev_json(i, SYMBOLS[*inst], *k, futures))),
+            _ => Ok(WsMessage::text("{}".to_string())),
+        },
+        FrameD2::Malformed => Ok(WsMessage::text("{\"e\":\"depthUpdate\",\"s\":".to_string())),
+        FrameD2::WsErr => Err(WsError::ConnectionClosed),
+        FrameD2::Ping => Ok(WsMessage::Ping(Vec::new().into())),
+        FrameD2::Pong => Ok(WsMessage::Pong(Vec::new().into())),
+        FrameD2::Close => Ok(WsMessage::Close(None)),
+        FrameD2::UnknownSymbol => Ok(WsMessage::text(
+            if futures {
+                "{\"e\":\"depthUpdate\",\"E\":1700000000000,\"T\":1700000000000,\"s\":\"DOGEUSDT\",\"U\":1,\"u\":2,\"pu\":0,\"b\":[[\"1.50\",\"1\"]],\"a\":[]}"
+            } else {
+                "{\"e\":\"depthUpdate\",\"E\":1700000000000,\"s\":\"DOGEUSDT\",\"U\":1,\"u\":2,\"b\":[[\"1.50\",\"1\"]],\"a\":[]}"
+            }
+            .to_string(),
+        )),
+    }
 }
 
 #[derive(Clone, Debug, Serialize, Deserialize)]
 pub struct ScenarioD2 {
+    /// slow consumer: while the manager applies the n-th item another (real) thread holds a read
+    /// lock on that instrument's shared book for a moment
+    #[serde(default)]
+    pub reader_at: Option<usize>,
     pub futures: bool,
     pub insts: Vec<InstD2>,
     pub conns: Vec<ConnD2>,
@@ -210,6 +260,11 @@ struct Probe<S> {
     insts: Arc<Vec<InstD2>>,
     log: Arc<Mutex<ProbeLog>>,
     conn_counter: Arc<Mutex<usize>>,
+    reader_at: Option<usize>,
+    yielded: usize,
+    reader_fired: Arc<Mutex<bool>>,
+    /// lets the reader thread go as soon as the manager comes back for the next item
+    reader_release: Option<(std::sync::mpsc::Sender<()>, std::sync::mpsc::Receiver<()>)>,
 }
 
 impl<S> Probe<S> {
@@ -249,6 +304,11 @@ where
     type Item = MarketStreamEvent<usize, OrderBookEvent>;
 
     fn poll_next(mut self: Pin<&mut Self>, cx: &mut Context<'_>) -> Poll<Option<Self::Item>> {
+        if let Some((tx, gone)) = self.reader_release.take() {
+            // ... and wait until its lock is really gone before anything else touches the book
+            let _ = tx.send(());
+            let _ = gone.recv();
+        }
         self.check_books();
         let r = self.inner.as_mut().poll_next(cx);
         if let Poll::Ready(Some(ev)) = &r {
@@ -261,6 +321,42 @@ where
                 },
             };
             self.log.lock().unwrap().items.push((conn, item));
+            if let Event::Item(me) = ev {
+                if Some(self.yielded) == self.reader_at {
+                    // a reader of the shared book (another thread) takes its read lock right before the
+                    // manager applies this item and keeps it for a moment; the order of events is fixed
+                    // (reader holds -> manager wants to write -> reader lets go), only its duration is real
+                    if let Some(book) = self.books.find(&me.instrument) {
+                        let (tx, rx) = std::sync::mpsc::channel::<()>();
+                        let (release_tx, release_rx) = std::sync::mpsc::channel::<()>();
+                        let (gone_tx, gone_rx) = std::sync::mpsc::channel::<()>();
+                        std::thread::spawn(move || {
+                            let guard = book.read();
+                            let _ = tx.send(());
+                            // let go when the manager comes back for the next item, or as soon as a writer
+                            // is queued behind this lock (then further readers are refused): no outcome
+                            // depends on how long either takes
+                            let since = std::time::Instant::now();
+                            loop {
+                                if release_rx.try_recv().is_ok() || since.elapsed() > Duration::from_secs(5) {
+                                    break;
+                                }
+                                match book.try_read() {
+                                    None => break,
+                                    Some(probe) => drop(probe),
+                                }
+                                std::thread::yield_now();
+                            }
+                            drop(guard);
+                            let _ = gone_tx.send(());
+                        });
+                        let _ = rx.recv();
+                        self.reader_release = Some((release_tx, gone_rx));
+                        *self.reader_fired.lock().unwrap() = true;
+                    }
+                }
+                self.yielded += 1;
+            }
         }
         r
     }
@@ -269,33 +365,15 @@ where
 type BoxSocket = Pin<Box<dyn Stream<Item = Result<WsMessage, WsError>> + Send>>;
 type BoxConn = Pin<Box<dyn Stream<Item = Result<MarketEvent<usize, OrderBookEvent>, DataError>> + Send>>;
 
-fn socket(frames: Vec<(u64, FrameD2, Option<String>)>, insts: Arc<Vec<InstD2>>, futures: bool, delivered: Arc<Mutex<Vec<(usize, usize)>>>, conn: usize, clock: (tokio::time::Instant, Arc<Mutex<u64>>)) -> BoxSocket {
+fn socket(frames: Vec<(u64, FrameD2, Option<String>)>, offset: usize, insts: Arc<Vec<InstD2>>, futures: bool, delivered: Arc<Mutex<Vec<(usize, usize)>>>, conn: usize, clock: (tokio::time::Instant, Arc<Mutex<u64>>)) -> BoxSocket {
     Box::pin(futures::stream::unfold((frames.into_iter().enumerate(), insts, delivered), move |(mut it, insts, delivered)| { let clock = clock.clone(); async move {
         let (idx, (d, f, _)) = it.next()?;
         if d > 0 {
             tokio::time::sleep(Duration::from_millis(d)).await;
         }
-        delivered.lock().unwrap().push((conn, idx));
+        delivered.lock().unwrap().push((conn, idx + offset));
         *clock.1.lock().unwrap() = clock.0.elapsed().as_millis() as u64;
-        let msg = match f {
-            FrameD2::Ev { inst, k } => match insts.get(inst) {
-                Some(i) if k < i.cuts.len() => Ok(WsMessage::text(ev_json(i, SYMBOLS[inst], k, futures))),
-                _ => Ok(WsMessage::text("{}".to_string())),
-            },
-            FrameD2::Malformed => Ok(WsMessage::text("{\"e\":\"depthUpdate\",\"s\":".to_string())),
-            FrameD2::WsErr => Err(WsError::ConnectionClosed),
-            FrameD2::Ping => Ok(WsMessage::Ping(Vec::new().into())),
-            FrameD2::Pong => Ok(WsMessage::Pong(Vec::new().into())),
-            FrameD2::Close => Ok(WsMessage::Close(None)),
-            FrameD2::UnknownSymbol => Ok(WsMessage::text(
-                if futures {
-                    "{\"e\":\"depthUpdate\",\"E\":1700000000000,\"T\":1700000000000,\"s\":\"DOGEUSDT\",\"U\":1,\"u\":2,\"pu\":0,\"b\":[[\"1.50\",\"1\"]],\"a\":[]}"
-                } else {
-                    "{\"e\":\"depthUpdate\",\"E\":1700000000000,\"s\":\"DOGEUSDT\",\"U\":1,\"u\":2,\"b\":[[\"1.50\",\"1\"]],\"a\":[]}"
-                }
-                .to_string(),
-            )),
-        };
+        let msg = frame_msg(&f, &insts, futures);
         Some((msg, (it, insts, delivered)))
     }}))
 }
@@ -396,6 +474,7 @@ impl Sim for SimD2 {
                     init_fail: true,
                     snap: vec![0; n_inst],
                     frames: vec![],
+                    n_buffered: 0,
                 });
             }
             let mut snap = Vec::new();
@@ -493,13 +572,16 @@ impl Sim for SimD2 {
                     }
                 }
             }
+            let n_buffered = if faulty && rng.chance(1, 3) { rng.usize(frames.len() + 1).min(6) } else { 0 };
             conns.push(ConnD2 {
                 init_fail: false,
                 snap,
                 frames,
+                n_buffered,
             });
         }
         ScenarioD2 {
+            reader_at: if faulty && rng.chance(1, 80) { Some(rng.usize(8)) } else { None },
             futures,
             insts,
             conns,
@@ -549,6 +631,7 @@ impl Sim for SimD2 {
                     })
                     .cloned()
                     .collect(),
+                n_buffered: c.n_buffered,
             })
             .collect();
         let conns = Arc::new(conns);
@@ -558,6 +641,7 @@ impl Sim for SimD2 {
         let handler_errs: Arc<Mutex<Vec<(usize, String)>>> = Arc::new(Mutex::new(Vec::new()));
         let delivered: Arc<Mutex<Vec<(usize, usize)>>> = Arc::new(Mutex::new(Vec::new()));
         let conn_counter = Arc::new(Mutex::new(0usize));
+        let reader_fired = Arc::new(Mutex::new(false));
         let books: FnvHashMap<usize, Arc<RwLock<OrderBook>>> = (0..n_inst).map(|i| (i, Arc::new(RwLock::new(OrderBook::default())))).collect();
         let book_map = OrderBookMapMulti::new(books);
         let (init_calls, end_ms): (usize, u64) = rt.block_on(async {
@@ -600,15 +684,25 @@ impl Sim for SimD2 {
                     snapshots.rotate_left((snap_rot as usize + k) % n.max(1));
                     let map: Map<usize> = insts.iter().enumerate().map(|(i, _)| (sub_id(SYMBOLS[i]), i)).collect();
                     let (ws_sink_tx, _ws_sink_rx) = tokio::sync::mpsc::unbounded_channel();
-                    let sock = socket(conn.frames.clone(), insts.clone(), futures, delivered.clone(), k, (start, last_ms.clone()));
+                    // frames that arrived while the subscription was being validated
+                    let (n_buf, _) = effective_buffered(&conn, &insts, futures);
+                    let buffered: Vec<WsMessage> = conn.frames[..n_buf].iter().filter_map(|(_, f, _)| frame_msg(f, &insts, futures).ok()).collect();
+                    for idx in 0..n_buf {
+                        delivered.lock().unwrap().push((k, idx));
+                    }
+                    let sock = socket(conn.frames[n_buf..].to_vec(), n_buf, insts.clone(), futures, delivered.clone(), k, (start, last_ms.clone()));
                     // same assembly order as MarketStream::init: transformer from the snapshots, then
                     // the snapshot events are the stream's initial buffer
                     let stream: BoxConn = if futures {
-                        let t = <BinanceFuturesUsdOrderBooksL2Transformer<usize> as ExchangeTransformer<BinanceFuturesUsd, usize, OrderBooksL2>>::init(map, &snapshots, ws_sink_tx).await?;
-                        Box::pin(ExchangeStream::<WebSocketParser, _, _>::new(sock, t, snapshots.into_iter().map(Ok).collect::<VecDeque<_>>()))
+                        let mut t = <BinanceFuturesUsdOrderBooksL2Transformer<usize> as ExchangeTransformer<BinanceFuturesUsd, usize, OrderBooksL2>>::init(map, &snapshots, ws_sink_tx).await?;
+                        let mut processed = barter_data::process_buffered_events::<WebSocketParser, _>(&mut t, buffered);
+                        processed.extend(snapshots.into_iter().map(Ok));
+                        Box::pin(ExchangeStream::<WebSocketParser, _, _>::new(sock, t, processed))
                     } else {
-                        let t = <BinanceSpotOrderBooksL2Transformer<usize> as ExchangeTransformer<BinanceSpot, usize, OrderBooksL2>>::init(map, &snapshots, ws_sink_tx).await?;
-                        Box::pin(ExchangeStream::<WebSocketParser, _, _>::new(sock, t, snapshots.into_iter().map(Ok).collect::<VecDeque<_>>()))
+                        let mut t = <BinanceSpotOrderBooksL2Transformer<usize> as ExchangeTransformer<BinanceSpot, usize, OrderBooksL2>>::init(map, &snapshots, ws_sink_tx).await?;
+                        let mut processed = barter_data::process_buffered_events::<WebSocketParser, _>(&mut t, buffered);
+                        processed.extend(snapshots.into_iter().map(Ok));
+                        Box::pin(ExchangeStream::<WebSocketParser, _, _>::new(sock, t, processed))
                     };
                     Ok(stream)
                 }
@@ -631,6 +725,10 @@ impl Sim for SimD2 {
                 insts: insts.clone(),
                 log: probe_log.clone(),
                 conn_counter: conn_counter.clone(),
+                reader_at: sc.reader_at,
+                yielded: 0,
+                reader_fired: reader_fired.clone(),
+                reader_release: None,
             };
             let manager = OrderBookL2Manager { stream: probe, books: book_map.clone() };
             // the reconnecting stream never ends: run until the script is exhausted and quiet
@@ -641,6 +739,9 @@ impl Sim for SimD2 {
         });
         drop(rt);
         stats.sim_time_ms = end_ms.min(600_000);
+        if *reader_fired.lock().unwrap() {
+            stats.fault("busy_reader_on_shared_book");
+        }
 
         let plog = probe_log.lock().unwrap();
         let delivered = delivered.lock().unwrap().clone();
@@ -693,8 +794,20 @@ impl Sim for SimD2 {
                     continue;
                 }
                 let items: Vec<&ProbeItem> = plog.items.iter().filter(|(c, _)| *c == ci).map(|(_, i)| i).collect();
+                let (n_buf, buffer_break) = effective_buffered(conn, &insts, futures);
+                if n_buf > 0 {
+                    stats.fault("frames_buffered_during_handshake");
+                }
+                if buffer_break {
+                    // the chain broke inside the handshake buffer: the terminal error is the first thing
+                    // the stream yields, so nothing of this connection may reach a book
+                    stats.probe("gap_in_handshake_buffer");
+                    if items.iter().any(|it| !matches!(it, ProbeItem::Reconnecting)) {
+                        fail!('chk, "B2_break_not_terminal", ci, "connection {ci}: the chain broke inside the frames buffered during the handshake, yet the connection applied {items:?}");
+                    }
+                }
                 // snapshots first, one per instrument, then updates, then exactly one notice
-                for i in 0..n_inst {
+                for i in (0..n_inst).filter(|_| !buffer_break) {
                     let first = items.iter().find(|it| matches!(it, ProbeItem::Snapshot { inst, .. } | ProbeItem::Update { inst, .. } if *inst == i));
                     match first {
                         Some(ProbeItem::Snapshot { seq, .. }) if *seq == conn.snap[i] => {}
@@ -934,7 +1047,7 @@ impl Sim for SimD2 {
         ]
     }
     fn fault_kinds(&self) -> Vec<&'static str> {
-        vec!["drop", "duplicate", "swap_adjacent", "replay_old_prefix", "harmless_junk_frame", "init_failure", "connection_end"]
+        vec!["drop", "duplicate", "swap_adjacent", "replay_old_prefix", "harmless_junk_frame", "init_failure", "connection_end", "frames_buffered_during_handshake", "busy_reader_on_shared_book"]
     }
     fn probe_kinds(&self) -> Vec<&'static str> {
         vec![
@@ -947,12 +1060,13 @@ impl Sim for SimD2 {
             "junk_frame_did_not_end_connection",
             "non_terminal_error_handled",
             "gap_free_delivery_with_old_prefix",
+            "gap_in_handshake_buffer",
         ]
     }
     fn assumptions(&self) -> Vec<String> {
         vec![
             "a stale or duplicated message delivered mid-stream may be dropped silently or force re-initialisation; both keep the book correct and are accepted".into(),
-            "events buffered during subscription validation (MarketStream::init) are not modelled: that code needs real sockets".into(),
+            "frames buffered during subscription validation go through the real process_buffered_events and are queued ahead of the snapshot events exactly as MarketStream::init does, but only stale / harmless frames, optionally closed by one chain-breaking event, are generated: a buffered event that continues the chain would be emitted ahead of the snapshot it was validated against (DESIGN.md section 7, noted issue outside the claimed set)".into(),
         ]
     }
 }
